@@ -145,6 +145,11 @@ def run(ctx):
             if why:
                 ctx.problem('oracle', 'property fails on the implementation: ' + why, inputs=js, failing_input_found=True)
                 break
+    why = oracle_unbounded()
+    ctx.suites['unbounded_badly_scaled'] = {'cases': 2, 'failure': why}
+    ctx.evaluations += 2
+    if why:
+        ctx.problem('oracle', 'property fails on the implementation: ' + why, inputs={'suite': 'unbounded_badly_scaled'}, failing_input_found=True)
     for name, cases, model, eqb, tout in (('sig_primal', pc, 'model_primal', 'ssig_eqb2', 'ssig'),
                                           ('sig_dual', dc, 'model_dual', 'dual_eqb', 'ssig * list Q * list Q * bool')):
         ctx.evaluations += len(cases)
@@ -185,8 +190,28 @@ def oracle_values(rng, f, n, kind, X, pp, dp):
     return None
 
 
+def oracle_unbounded():
+    """a badly scaled signomial that is unbounded below: whatever accuracy the solver reaches, neither form may report a
+    value above -inf ... + inf would be a 'lower bound' exceeding every f(x)"""
+    import sageopt as so
+    from sageopt.relaxations import sage_sigs as ss
+    f = so.Signomial(np.array([[-2.0], [-0.5], [-2.9]]), np.array([0.1, 1e5, -0.1]))
+    with warnings.catch_warnings():
+        warnings.simplefilter('ignore')
+        for form in ('primal', 'dual'):
+            st, val = ss.sig_relaxation(f, form=form).solve(verbose=False)
+            if st in ('solved', 'inaccurate') and isinstance(val, float) and val > -1e6:
+                fx = float(f(np.array([-12.0])))
+                return ('%s-form relaxation of 0.1e^{-2x} + 1e5 e^{-x/2} - 0.1e^{-2.9x} (unbounded below: f(-12) = %.3g) reports (%s, %r)'
+                        % (form, fx, st, val))
+    return None
+
+
 def search(ctx):
     from sageopt.relaxations import sage_sigs as ss
+    why = oracle_unbounded()
+    if why:
+        return {'suite': 'unbounded_badly_scaled', 'property_failure': why}
     for _ in range(60):
         n, rows, f, frows, kind, X, ell, ms, msnp = build(ctx.rng)
         if len(frows) ** (ell + 1) > 60:
